@@ -256,7 +256,11 @@ def s_net(draw):
         df = {"adsb": draw(st.sampled_from([17, 18])), "commb": draw(st.sampled_from([20, 21])), "otherlong": draw(st.sampled_from([16, 19, 22, 24, 31]))}[kind]
         return "%028X" % ((df << 107) | draw(gen.ubits(107)))
     batches = draw(st.lists(st.lists(st.builds(one), min_size=0, max_size=6), min_size=1, max_size=8))
-    return {"batches": batches, "hc": draw(gen.hexcase), "source": draw(st.sampled_from(["net", "net", "rtl"]))}
+    # consecutive bit-identical messages (a transponder repeats itself) and long stretches of Comm-B traffic between two squitters
+    dup = draw(gen.uint(0, 3)) == 0
+    bulk = draw(st.sampled_from([0, 0, 0, 0, 200, 600, 1500]))
+    return {"batches": batches, "hc": draw(gen.hexcase), "source": draw(st.sampled_from(["net", "net", "rtl"])), "dup": dup, "same_ts": draw(st.booleans()),
+            "bulk": bulk, "bulk_at": draw(gen.uint(0, 7)), "ctx_bulkseed": draw(gen.ubits(32))}
 
 
 def chk_net(case, note):
@@ -269,13 +273,22 @@ def chk_net(case, note):
     src.raw_pipe_in = _Pipe()
     t = 0
     fed_a, fed_c = [], []
-    batches = [list(b) for b in case["batches"]] + [["8D" + "0" * 26, "8D" + "1" * 26]]
+    batches = [list(b) for b in case["batches"]]
+    if case.get("dup"):
+        batches = [[m for m in b for _ in (0, 1)] for b in batches]
+    if case.get("bulk"):
+        k = case["bulk_at"] % len(batches)
+        batches[k] = batches[k] + ["%028X" % ((20 << 107) | gen.spread(case["ctx_bulkseed"] + j, 107)) for j in range(case["bulk"])]
+    batches = batches + [["8D" + "0" * 26, "8D" + "1" * 26]]
     for b in batches:
         msgs = []
+        prev = None
         for m in b:
             if case["hc"] == "L":
                 m = m.lower()
-            t += 1
+            if not (case.get("same_ts") and m == prev):  # one read may stamp several frames with the same time
+                t += 1
+            prev = m
             msgs.append([m, t])
             if len(m) == 28 and (int(m[:2], 16) >> 3) in (17, 18):
                 fed_a.append((m, t))
@@ -297,6 +310,10 @@ def chk_net(case, note):
     if src.local_buffer_adsb_msg or src.local_buffer_commb_msg:
         return "after a final batch with two ADS-B messages %r / %r remain buffered" % (src.local_buffer_adsb_msg, src.local_buffer_commb_msg)
     note.cls(type(src).__name__)
+    if case.get("bulk"):
+        note.cls("bulk-commb-%d" % case["bulk"])
+    if case.get("dup"):
+        note.cls("consecutive-duplicates")
     note.nt(len(fed_a) > 2 and len(fed_c) > 0)
     return None
 
@@ -342,7 +359,65 @@ def chk_atheris(case, note):
     return fuzzleg.judge(case, note, fuzz_check)
 
 
+# ------------------------------------------------------------------ reader + NetSource end to end (as run() wires them)
+@st.composite
+def s_pipeline(draw):
+    fmt = draw(st.sampled_from(["beast", "beast", "raw"]))
+    fs = {"beast": beast_frame, "raw": raw_frame}[fmt]
+    base = draw(st.lists(fs(), min_size=2, max_size=8))
+    frames_ = []
+    for f in base:
+        if fmt == "beast" and draw(gen.uint(0, 2)) > 0:  # mostly long DF17/18/20/21 frames, which the source forwards
+            f = [3, f[1][:7] + [(draw(st.sampled_from([17, 18, 20, 21])) << 3) | (f[1][7] & 7)] + (f[1][8:] + [0] * 14)[:13]]
+        elif fmt == "raw" and draw(gen.uint(0, 2)) > 0:
+            f = ["%028X" % ((draw(st.sampled_from([17, 18, 20, 21])) << 107) | draw(gen.ubits(107))), f[1]]
+        frames_.append(f)
+        if draw(gen.uint(0, 3)) == 0:
+            frames_.append(f)  # the same frame transmitted twice in a row
+    return {"fmt": fmt, "frames": frames_, "cuts": draw(st.lists(gen.uint(0, 10 ** 6), min_size=0, max_size=10))}
+
+
+def chk_pipeline(case, note):
+    fmt = case["fmt"]
+    stream, exp, done_at = build(case)
+    want = [m for m in exp if m is not None and len(m) == 28 and (int(m[:2], 16) >> 3) in (17, 18, 20, 21)]
+    n = len(stream)
+    segs = [[], list(range(1, n)), [1 + x % max(1, n - 1) for x in case["cuts"]]] + [[c] for c in range(1, n, max(1, n // 24))]
+    for cuts in segs:
+        src = NetSource("localhost", 0, "beast" if fmt == "beast" else "raw")
+        src.stop_flag = _Flag()
+        src.raw_pipe_in = _Pipe()
+        pos = 0
+        for b in sorted(set(x for x in cuts if 0 < x < n)) + [n]:
+            src.buffer.extend(stream[pos:b])
+            pos = b
+            r = call(src.read_beast_buffer if fmt == "beast" else src.read_raw_buffer)
+            if r[0] != "ok":
+                return "[%s] reader raised %r (cuts %r)" % (fmt, r[1:], cuts[:6])
+            if r[1]:
+                h = call(src.handle_messages, r[1])
+                if h[0] != "ok":
+                    return "[%s] NetSource.handle_messages raised %r" % (fmt, h[1:])
+        got = []
+        for sent in src.raw_pipe_in.sent:
+            got.append(sorted(zip(sent["adsb_ts"] + sent["commb_ts"], range(10 ** 6), sent["adsb_msg"] + sent["commb_msg"])))
+        fa = [m for sent in src.raw_pipe_in.sent for m in sent["adsb_msg"]] + list(src.local_buffer_adsb_msg)
+        fc = [m for sent in src.raw_pipe_in.sent for m in sent["commb_msg"]] + list(src.local_buffer_commb_msg)
+        wa = [m for m in want if (int(m[:2], 16) >> 3) in (17, 18)]
+        wc = [m for m in want if (int(m[:2], 16) >> 3) in (20, 21)]
+        if [m.upper() for m in fa] != [m.upper() for m in wa] or [m.upper() for m in fc] != [m.upper() for m in wc]:
+            return "[%s] cuts %r: forwarded+buffered ADS-B %r / Comm-B %r, transmitted %r / %r" % (fmt, cuts[:6], fa, fc, wa, wc)
+    note.evals = len(segs)
+    note.cls("pipeline-" + fmt)
+    dups = any(a == b for a, b in zip(want, want[1:]))
+    if dups:
+        note.cls("repeated-frame")
+    note.nt(len(want) > 1, key=[fmt, case["frames"]])
+    return None
+
+
 LEGS = [
+    Leg("pipeline", chk_pipeline, strategy=s_pipeline, quick=600, thorough=20000, doc="reader output fed to NetSource.handle_messages under several segmentations: everything transmitted is forwarded once, in order"),
     Leg("atheris_streams", chk_atheris, enum=enum_atheris, shards_quick=1, shards_thorough=4, doc="libFuzzer campaign: bytes -> frames + cut list, chunk-independence oracle inside the target (thorough tier only)"),
     Leg("chunking", chk_stream, strategy=s_stream, quick=1200, thorough=24000, doc="whole / every single cut / 1-byte pieces / drawn multi-cut, all formats"),
     Leg("double_cuts", chk_stream_double, strategy=s_small, quick=64, thorough=3000, doc="every pair of cut positions on short streams"),
